@@ -940,11 +940,34 @@ def _c03_class(st, flags):
     return None
 
 
+# ------------------------------------------------------------------------- C18 (call history on one Shaper)
+
+def judge_c18(ctx, ex):
+    runs = ctx["runs"]
+    for r in runs:
+        if r["schema"] is None:
+            yield (r["parse_problem"], True, None)
+            return
+    if ctx["scenario"] == "history":
+        got, want, what = runs[1], runs[2], "second call on the same Shaper vs a fresh Shaper with the second call's arguments"
+    else:
+        got, want, what = runs[1], runs[0], "the same call repeated on one Shaper"
+    yield from _views_equal(statements_view(got["schema"]), statements_view(want["schema"]), what)
+    fg, fw = facts(got["schema"]), facts(want["schema"])
+    if set(fg) != set(fw):
+        yield ("%s: reported facts differ: %r" % (what, sorted(set(fg) ^ set(fw), key=repr)[:3]), True, None)
+    for k in set(fg) & set(fw):
+        yield ("%s: count of %r differs" % (what, k[:5]), fig_differs(ex, fg[k][1], fw[k][1]), None)
+        yield ("%s: ratio of %r differs" % (what, k[:5]), fig_differs(ex, fg[k][0], fw[k][0]), None)
+    if len(got["text"].split("\n")) != len(want["text"].split("\n")):
+        yield ("%s: number of output lines differs (%d vs %d)" % (what, len(got["text"].split("\n")), len(want["text"].split("\n"))), True, None)
+
+
 # ------------------------------------------------------------------------- registries
 
 JUDGES = {
     "C01": [judge_c01], "C02": [judge_c02], "C04": [], "C05": [judge_c05], "C12": [judge_c12], "C12z": [judge_c12_zero], "C12o": [judge_c12_one],
-    "C14": [judge_c14], "C11": [judge_c11], "C13": [judge_c13], "C03": [judge_c03],
+    "C14": [judge_c14], "C11": [judge_c11], "C13": [judge_c13], "C03": [judge_c03], "C18": [judge_c18],
 }
 
 
@@ -1001,4 +1024,5 @@ CONCRETE = {
     "C11": lambda c: _run_symbolic_judge_concretely(judge_c11, c),
     "C13": lambda c: _run_symbolic_judge_concretely(judge_c13, c),
     "C03": _conc_c03,
+    "C18": lambda c: _run_symbolic_judge_concretely(judge_c18, c),
 }
